@@ -2,6 +2,7 @@ import DaskModel.DriverLib
 import DaskModel.Model.Config
 import DaskModel.Generated.ConfigTables
 import DaskModel.Model.LockReg
+import DaskModel.Model.Match
 open Dask
 
 /-! ## C17 — config store
@@ -196,6 +197,122 @@ def hRun : Handler := handler fun args =>
 def table : List (String × Handler) := [("lock-run", hRun)]
 end C53
 
-def table : List (String × Handler) := C17.table ++ C53.table
+/-! ## C51 — rewrite matching
+
+Wire format: `(c n)` data atom, `(f n)` bare callable atom, `(app n (args…))` task, `(lst (items…))` list;
+rule = `(lhs rhs (vars…))`; edge = a symbol or `var`. -/
+namespace C51
+open Dask.Match
+
+def toSym? : SExp → Option Sym
+  | .list [.sym "c", n] => do pure (.const (← n.toNat?))
+  | .list [.sym "f", n] => do pure (.fn (← n.toNat?))
+  | _ => none
+
+partial def toTerm? : SExp → Option Term
+  | .list [.sym "app", n, .list as] => do pure (.app (← n.toNat?) (← as.mapM toTerm?))
+  | .list [.sym "lst", .list as] => do pure (.lst (← as.mapM toTerm?))
+  | e => (toSym? e).map Term.atom
+
+def ofSym : Sym → SExp
+  | .const n => .list [.sym "c", SExp.ofNat n]
+  | .fn n => .list [.sym "f", SExp.ofNat n]
+
+partial def ofTerm : Term → SExp
+  | .atom s => ofSym s
+  | .app f as => .list [.sym "app", SExp.ofNat f, .list (as.map ofTerm)]
+  | .lst as => .list [.sym "lst", .list (as.map ofTerm)]
+
+def toRule? : SExp → Option Rule
+  | .list [l, r, .list vs] => do pure ⟨← toTerm? l, ← toTerm? r, ← vs.mapM toSym?⟩
+  | _ => none
+
+def toRules? (e : SExp) : Option (List Rule) := do (← e.toList?).mapM toRule?
+
+def ofEdge : Edge → SExp
+  | .sym s => ofSym s
+  | .var => .sym "var"
+
+def ofYields (ys : List Yield) : SExp :=
+  .list (ys.map fun y => .list [SExp.ofNats y.1, .list (y.2.map ofTerm)])
+
+def ofSubst (σ : Subst) : SExp := .list (σ.map fun kv => .list [ofSym kv.1, ofTerm kv.2])
+
+/-- `(rw-flatten term)` ↦ `list(Traverser(term))`, through the traverser loop -/
+def hFlatten : Handler := handler fun args =>
+  match args with
+  | [t] => do
+    let t ← toTerm? t
+    match preorder (t.size + 2) [t] with
+    | some ss => pure (.list (ss.map ofSym))
+    | none => pure (.list [.sym "out-of-fuel"])
+  | _ => none
+
+/-- `(rw-rule rule)` ↦ `(varlist path)` -/
+def hRule : Handler := handler fun args =>
+  match args with
+  | [r] => do
+    let r ← toRule? r
+    pure (.list [.list (r.varlist.map ofSym), .list (r.path.map ofEdge)])
+  | _ => none
+
+/-- `(rw-match rules term)` ↦ the yields of `_match` -/
+def hMatch : Handler := handler fun args =>
+  match args with
+  | [rs, t] => do
+    let N := Net.ofRules (← toRules? rs)
+    match matchLoop (fuelFor N) [← toTerm? t] N [] [] false with
+    | some ys => pure (.list [.sym "ok", ofYields ys])
+    | none => pure (.list [.sym "out-of-fuel"])
+  | _ => none
+
+/-- `(rw-match-old rules term)`: the loop before the fix -/
+def hMatchOld : Handler := handler fun args =>
+  match args with
+  | [rs, t] => do
+    let N := Net.ofRules (← toRules? rs)
+    match matchLoopOld (fuelFor N) [← toTerm? t] N [] [] false with
+    | .done ys => pure (.list [.sym "ok", ofYields ys])
+    | .indexError ys => pure (.list [.sym "IndexError", ofYields ys])
+    | .outOfFuel => pure (.list [.sym "out-of-fuel"])
+  | _ => none
+
+/-- `(rw-iter rules term)` ↦ `((i ((var term)…))…)` -/
+def hIter : Handler := handler fun args =>
+  match args with
+  | [rs, t] => do
+    match iterMatches (← toRules? rs) (← toTerm? t) with
+    | some ms => pure (.list [.sym "ok", .list (ms.map fun m => .list [SExp.ofNat m.1, ofSubst m.2])])
+    | none => pure (.list [.sym "out-of-fuel"])
+  | _ => none
+
+/-- `(rw-rewrite rules term top_level|bottom_up)` -/
+def hRewrite : Handler := handler fun args =>
+  match args with
+  | [rs, t, .sym strat] => do
+    let rules ← toRules? rs
+    let t ← toTerm? t
+    let r := if strat == "top_level" then rewriteTop rules t else bottomUp rules t
+    match r with
+    | some t' => pure (.list [.sym "ok", ofTerm t'])
+    | none => pure (.list [.sym "out-of-fuel"])
+  | _ => none
+
+/-- `(rw-process (varlist…) (syms…))` -/
+def hProcess : Handler := handler fun args =>
+  match args with
+  | [.list vs, .list ss] => do
+    match processMatch (← vs.mapM toSym?) (← ss.mapM toTerm?) with
+    | none => pure (.list [.sym "RuntimeError"])
+    | some none => pure (.list [.sym "none"])
+    | some (some σ) => pure (.list [.sym "ok", ofSubst σ])
+  | _ => none
+
+def table : List (String × Handler) :=
+  [("rw-flatten", hFlatten), ("rw-rule", hRule), ("rw-match", hMatch), ("rw-match-old", hMatchOld),
+   ("rw-iter", hIter), ("rw-rewrite", hRewrite), ("rw-process", hProcess)]
+end C51
+
+def table : List (String × Handler) := C17.table ++ C53.table ++ C51.table
 
 def main : IO Unit := runDriver table
